@@ -57,6 +57,7 @@ class Knobs:
         self.p_pin = 0.15
         self.p_milestone = 0.15
         self.p_scen = 0.0
+        self.p_scen_date = 0.0      # scenario-specific start (ASAP) / end (ALAP) overrides, also on containers
         self.p_prec = 0.0
         self.p_group = 0.25
         self.p_group_cal = 0.5       # a group carries hours / shift / zone / leave that its members inherit
@@ -367,6 +368,17 @@ def gen_project(rng, k=None):
             if A.is_leaf(t) and t.get("effort") and pick(rng, 0.5):
                 sid = rng.choice(["s2", "s3"] if p["scenarios"][0]["children"][0].get("children") else ["s2"])
                 t.setdefault("sc", {})[sid] = {"effort": gen_effort(rng, G, k)}
+        # scenario-specific dates, also on containers that have no plain date of their own (their children inherit them
+        # in that scenario only)
+        for fid in order:
+            t = nodes[fid]
+            if pick(rng, k.p_scen_date) and t.get("start") is None and t.get("end") is None and not t.get("milestone"):
+                sid = rng.choice(["s2", "s3"] if p["scenarios"][0]["children"][0].get("children") else ["s2"])
+                when = (start // D) * D + rng.randrange(1, max(2, min(ndays, 10))) * D + 9 * H
+                key = "end" if env == "alap" else "start"
+                if key == "end":
+                    when += 8 * H
+                t.setdefault("sc", {}).setdefault(sid, {})[key] = when
     return p
 
 
